@@ -625,11 +625,15 @@ package dsl
 //@   pure
 //@   stable
 //@ spec func commonOf() Type = lastResult(GetCommonType).r0
-// C09 / C19 (the type of `!switch` cases, of binary operands). (A clause "two different types have a common type only when
-// both are primitive" was written for seeded change C09-k and could not be discharged on the unchanged code - the link
-// between the spec-side application of the pure GetPrimitiveType and the call in the body was not established; withdrawn.)
+// C09 / C19 (the type of `!switch` cases, of binary operands): promotion is a rule about primitive types. Two types that
+// are neither the same nor aliases of the same type have a common type only when both are primitive - never because they
+// are spelled alike (`Point<int>` and `Point<double>` are both named `Point`). The axiom is read off the declaration
+// `var ErrNoCommonType = errors.New("no common type")`, which nothing assigns again (the first five attempts at this
+// clause failed for want of it: the counterexample was a nil sentinel).
+//@ axiom ErrNoCommonType != nil
 //@ func GetCommonType
 //@   property C09,C19
+//@   ensures only_primitive_types_are_promoted: result1 == nil && a != b && GetUnderlyingType(a) != GetUnderlyingType(b) ==> GetPrimitiveType(GetUnderlyingType(a)).ok && GetPrimitiveType(GetUnderlyingType(b)).ok
 //@   ensures the_same_type_is_its_own_common_type: a == b ==> result1 == nil && result0 == a
 // Negation is an arithmetic operator: like the binary operators it is defined for integer, floating-point and complex
 // operands only (`-s` on a string, a vector, a bool or a union is an ill-typed computed field: the C++ does not
